@@ -116,3 +116,17 @@ Example C15_utf8_order_nonvacuous :
   Forall valid_rune [65535; 97] /\ Forall valid_rune [65536] /\
   bcmp (utf8 [65535; 97]) (utf8 [65536]) = Lt /\ utf8 [65536] = [240; 144; 128; 128].
 Proof. repeat split; try (repeat constructor; reflexivity); vm_compute; reflexivity. Qed.
+
+(* --- "every name not using the reserved tag": its application name is the trimmed name part, without '{',
+   so the fixpoint holds for it --- *)
+Theorem C15_fixpoint_no_reserved_tag : forall n l, name_ok n -> Forall tag_ok l ->
+  (forall kv, In kv l -> trim (fst kv) <> name_key) ->
+  parse (normalized (parse (render n l))) = parse (render n l).
+Proof. exact fixpoint_no_reserved. Qed.
+Print Assumptions C15_fixpoint_no_reserved_tag.
+
+Theorem C15_app_name_no_reserved_tag : forall n l, name_ok n -> Forall tag_ok l ->
+  (forall kv, In kv l -> trim (fst kv) <> name_key) ->
+  app_name (parse (render n l)) = trim n /\ has c_lbrace (app_name (parse (render n l))) = false.
+Proof. exact app_name_render. Qed.
+Print Assumptions C15_app_name_no_reserved_tag.
